@@ -893,46 +893,70 @@ def _cl(items):
     return "[" + "; ".join(items) + "]" if items else "[]"
 
 
-def _rows_coq(rows):
-    return _cl(f"({_cz(l)}, {_cz(n)}, {_cz(s)}, {'true' if t else 'false'})" for l, n, s, t in rows)
-
-
 def sched_case(program, drv, clock0, rows0, trace, actions, rows_after, clocks_after, first_step=0):
     """(Gallina literal of type Sim.sched_case, None)  or  (None, reason) when the run is outside the model's domain
     (clock values that are not exact integers: SimpleClock with a non-dyadic step).
-    trace/actions entries carry the step number in position 0; steps first_step .. first_step+len(rows_after)-1."""
+    trace/actions entries carry the step number in position 0; steps first_step .. first_step+len(rows_after)-1.
+
+    Times are emitted RELATIVE to the case's first clock value and in units of the gcd of all durations of the case
+    (Sim.v only adds, subtracts, compares and takes minima of times, so it is invariant under this affine change of
+    units; it keeps the Z literals small - coqc spends ~1.4 ms per 19-digit literal)."""
+    import math as _m
     if clock0 is None or any(c is None for c in clocks_after) or len(clocks_after) != len(rows_after):
         return None, "schedule not observable (no Recorder component reachable)"
     E, m = t_int(stop_time(program)), t_int(min_step(program))
-    for v in list(clock0) + [E, m]:
-        if not isinstance(v, int):
-            return None, "non-integer clock value (inexact SimpleClock step)"
-    steps = []
+    indiv = has_individual_clocks(program)
+    t0 = clock0[0]
+    per_step = []
     for j in range(len(rows_after)):
         k = first_step + j
         evs = sorted([t for t in trace if t[0] == k], key=lambda t: t[1])
         if [t[1] for t in evs] != [0, 1, 2, 3]:
             # a step must show exactly the four events once: force a mismatch that Coq reports
-            return f"(((0%Z, 0%Z, 0%Z, 0%Z, false), [], 0%Z, [([], [], (0%Z, 0%Z, []), (0%Z, 0%Z, []))]) : sched_case)", None
+            return "(((0%Z, 0%Z, 0%Z, 0%Z, false), [], 0%Z, [([], [], (0%Z, 0%Z, []), (0%Z, 0%Z, []))]) : sched_case)", None
+        et, es = evs[0][4], evs[0][5]
+        if any(t[4] != et or t[5] != es for t in evs):
+            et = None    # the four events of one step must share time and step size: force a mismatch below
+        per_step.append((k, evs, et, es))
+    times = [E] + [c[0] for c in clocks_after] + [p[2] for p in per_step if p[2] is not None]
+    durs = [m, clock0[1]] + [c[1] for c in clocks_after] + [p[3] for p in per_step]
+    if indiv:
+        for rows in [rows0] + list(rows_after):
+            times += [r[1] for r in rows]
+            durs += [r[2] for r in rows]
+    if not all(isinstance(v, int) for v in times + durs + [t0]):
+        return None, "non-integer clock value (inexact SimpleClock step)"
+    g = 0
+    for v in [t - t0 for t in times] + durs:
+        g = _m.gcd(g, abs(v))
+    g = g or 1
+
+    def nt(t):
+        return _cz((t - t0) // g)
+
+    def nd(d):
+        return _cz(d // g)
+
+    def rows_lit(rows):
+        if indiv:
+            return _cl(f"({_cz(l)}, {nt(n)}, {nd(z)}, {'true' if t else 'false'})" for l, n, z, t in rows)
+        return _cl(f"({_cz(l)}, 0%Z, 0%Z, {'true' if t else 'false'})" for l, n, z, t in rows)
+
+    steps = []
+    for j, (k, evs, et, es) in enumerate(per_step):
         reacts = []
         for ev in range(4):
             births = sum(len(a[3]) for a in actions if a[0] == k and a[1] == ev and a[2] == "birth")
             untr = [l for a in actions if a[0] == k and a[1] == ev and a[2] == "untrack" for l in a[3]]
             snz = [l for a in actions if a[0] == k and a[1] == ev and a[2] == "snooze" for l in a[3]]
             reacts.append(f"({births}%nat, {_cl(map(_cz, untr))}, {_cl(map(_cz, snz))})")
-        et, es = evs[0][4], evs[0][5]
-        if any(t[4] != et or t[5] != es for t in evs):
-            et = -1      # the four events of one step must share time and step size: force a mismatch
-        if not all(isinstance(v, int) for v in [et, es] + list(clocks_after[j])):
-            return None, "non-integer clock value (inexact SimpleClock step)"
-        tb = _cl(f"({_cz(r[0])}, {_cz(r[2])})" for r in rows_after[j])
+        tb = _cl(f"({_cz(r[0])}, {nd(r[2])})" for r in rows_after[j]) if indiv else "[]"
         idxs = _cl(_cl(map(_cz, t[6])) for t in evs)
         T1, S1 = clocks_after[j]
-        steps.append(f"({_cl(reacts)}, {tb}, ({_cz(et)}, {_cz(es)}, {idxs}), ({_cz(T1)}, {_cz(S1)}, "
-                     f"{_rows_coq(rows_after[j])}))")
-    hdr = f"({_cz(clock0[0])}, {_cz(clock0[1])}, {_cz(E)}, {_cz(m)}, " \
-          f"{'true' if has_individual_clocks(program) else 'false'})"
-    return f"(({hdr}, {_rows_coq(rows0)}, {_cz(drv)}, {_cl(steps)}) : sched_case)", None
+        et_lit = nt(et) if et is not None else "(-1)%Z"
+        steps.append(f"({_cl(reacts)}, {tb}, ({et_lit}, {nd(es)}, {idxs}), ({nt(T1)}, {nd(S1)}, {rows_lit(rows_after[j])}))")
+    hdr = f"(0%Z, {nd(clock0[1])}, {nt(E)}, {nd(m)}, {'true' if indiv else 'false'})"
+    return f"(({hdr}, {rows_lit(rows0)}, {_cz(drv)}, {_cl(steps)}) : sched_case)", None
 
 
 # =====================================================================================================================
